@@ -544,12 +544,13 @@ pub fn withquery(s: &S) -> WithQuery {
     }
 }
 
-fn show(inline: String, sql: String, vals: Values) -> String {
+pub fn show(b: B, inline: String, sql: String, vals: Values) -> String {
     format!(
-        "{} {} {}",
+        "{} {} {} {}",
         hexs(&inline),
         hexs(&sql),
-        if vals.0.is_empty() { "-".to_string() } else { vals.0.iter().map(exprs::show_value).collect::<Vec<_>>().join(",") }
+        if vals.0.is_empty() { "-".to_string() } else { vals.0.iter().map(exprs::show_value).collect::<Vec<_>>().join(",") },
+        if vals.0.is_empty() { "-".to_string() } else { vals.0.iter().map(|v| hexs(&b.qb().value_to_string(v))).collect::<Vec<_>>().join(",") }
     )
 }
 
@@ -559,15 +560,15 @@ macro_rules! render {
         match $b {
             B::My => {
                 let (s, v) = q.build(MysqlQueryBuilder);
-                show(q.to_string(MysqlQueryBuilder), s, v)
+                show(B::My, q.to_string(MysqlQueryBuilder), s, v)
             }
             B::Pg => {
                 let (s, v) = q.build(PostgresQueryBuilder);
-                show(q.to_string(PostgresQueryBuilder), s, v)
+                show(B::Pg, q.to_string(PostgresQueryBuilder), s, v)
             }
             B::Sl => {
                 let (s, v) = q.build(SqliteQueryBuilder);
-                show(q.to_string(SqliteQueryBuilder), s, v)
+                show(B::Sl, q.to_string(SqliteQueryBuilder), s, v)
             }
         }
     }};
@@ -591,5 +592,72 @@ pub fn run(b: B, s: &S) -> String {
         out
     } else {
         format!("{} | {}", out, log.join(","))
+    }
+}
+
+/// entry <backend> <sexp>: all public rendering entry points agree, rendering twice agrees,
+/// rendering does not modify the statement
+macro_rules! entry_points {
+    ($qb:expr, $q:expr) => {{
+        let q = $q;
+        let before = q.clone();
+        let mut problems: Vec<String> = vec![];
+        let s1 = q.to_string($qb);
+        let (p1, v1) = q.build($qb);
+        let (p2, v2) = q.build_any(&$qb);
+        if p1 != p2 || v1 != v2 {
+            problems.push("build_any differs from build".into());
+        }
+        let (ph, numbered) = $qb.placeholder();
+        let mut w = SqlWriterValues::new(ph, numbered);
+        let p3 = q.build_collect($qb, &mut w);
+        let (p3b, v3) = w.into_parts();
+        if p3 != p1 || p3b != p1 || v3 != v1 {
+            problems.push("build_collect differs from build".into());
+        }
+        let (ph, numbered) = $qb.placeholder();
+        let mut w = SqlWriterValues::new(ph, numbered);
+        let p4 = q.build_collect_any(&$qb, &mut w);
+        let (_, v4) = w.into_parts();
+        if p4 != p1 || v4 != v1 {
+            problems.push("build_collect_any differs from build".into());
+        }
+        let mut sw = String::new();
+        q.build_collect_into($qb, &mut sw);
+        if sw != s1 {
+            problems.push("build_collect_into(String) differs from to_string".into());
+        }
+        let mut sw = String::new();
+        q.build_collect_any_into(&$qb, &mut sw);
+        if sw != s1 {
+            problems.push("build_collect_any_into(String) differs from to_string".into());
+        }
+        if q.to_string($qb) != s1 || q.build($qb) != (p1.clone(), v1.clone()) {
+            problems.push("second rendering differs".into());
+        }
+        if *q != before {
+            problems.push("rendering modified the statement".into());
+        }
+        if problems.is_empty() { "OK".to_string() } else { problems.join("; ") }
+    }};
+}
+macro_rules! entry_b {
+    ($b:expr, $q:expr) => {
+        match $b {
+            B::My => entry_points!(MysqlQueryBuilder, $q),
+            B::Pg => entry_points!(PostgresQueryBuilder, $q),
+            B::Sl => entry_points!(SqliteQueryBuilder, $q),
+        }
+    };
+}
+pub fn run_entry(b: B, s: &S) -> String {
+    let mut log = vec![];
+    match s.head() {
+        "select" => entry_b!(b, &select(s)),
+        "insert" => entry_b!(b, &insert(s, &mut log)),
+        "update" => entry_b!(b, &update(s)),
+        "delete" => entry_b!(b, &delete(s)),
+        "withq" => entry_b!(b, &withquery(s)),
+        other => panic!("stmt {}", other),
     }
 }
